@@ -33,10 +33,12 @@ def svc_table(t):
 def rule_table(t):
     return [(n, dict(kv)) for n, kv in zip(RNAMES, t) if kv]
 
-def conf_for(moddir, universe, t, modules=None):
+def conf_for(moddir, universe, t, modules=None, logs=None):
     kw = {}
     if modules:
         kw['modules'] = modules
+    if logs:
+        kw['logs'] = logs
     if universe == 'services':
         return e1.conf_text(moddir, services=svc_table(t), timeout=0, rules=FIXED_RULES, **kw)
     return e1.conf_text(moddir, services=FIXED_SERVICES, timeout=0, rules=rule_table(t), **kw)
@@ -153,17 +155,29 @@ def e3_sigusr1(run, b, universe, seqs, fresh):
     tables = _G['tables'][universe]
     moddir = os.path.join(b, 'mods-plain')
     mods = ('iauth', 'iauth_xquery', 'iauth_class')
+    LOGS = ['"core.info" "file:reload.log"']      # the daemon logs "Re-reading config file due to signal" right before conf_read()
     for t0i, seq in seqs:
-        d = e3.Daemon(conf_for(moddir, universe, tables[t0i], modules=mods), b=b)
+        d = e3.Daemon(conf_for(moddir, universe, tables[t0i], modules=mods, logs=LOGS), b=b)
         try:
             if not d.wait_banner():
                 raise common.HarnessError('E3 daemon did not start')
-            for i in seq:
+            logp = os.path.join(d.dir, 'reload.log')
+            for k, i in enumerate(seq):
                 with open(d.conf_path, 'w') as f:
-                    f.write(conf_for(moddir, universe, tables[i], modules=mods))
-                d.write(b'-1 ? stats2\n')          # marker so that the reload is ordered after everything before it
+                    f.write(conf_for(moddir, universe, tables[i], modules=mods, logs=LOGS))
                 d.signal(signal.SIGUSR1)
-                time.sleep(0.05)
+                # the daemon is single-threaded: once the handler has logged, the reload completes before any further input is read
+                t0 = time.time()
+                while True:
+                    try:
+                        got = open(logp).read().count('Re-reading config file')
+                    except OSError:
+                        got = 0
+                    if got >= k + 1:
+                        break
+                    if time.time() - t0 > 30:
+                        raise common.HarnessError('E3 daemon did not react to SIGUSR1 within 30 s')
+                    time.sleep(0.01)
             lines = probes(1)['ok-ka1']
             base = len(d.lines())
             d.write(('\n'.join(lines) + '\n').encode())
